@@ -116,7 +116,11 @@ def sources(svg):
         "quad": lambda: svg.QuadraticBezier(P(0, 0), P(7, 5), P(-4, 1.5)),
         "cubic": lambda: svg.CubicBezier(P(0, 0), P(7, 5), P(-4, 1.5), P(11, -6)),
         "arc": lambda: svg.Arc(P(0, 0), 10, 5, 30, 0, 1, P(7, 4)),
-        "path": path, "path2": path2, "group-with-use": group_with_use, "length-precise": lambda: svg.Length(100.0 / 3.0, "%"),
+        "path": path, "path2": path2, "group-with-use": group_with_use,
+        # falsy but meaningful attribute values: a stroke width of 0, a fully transparent fill, an empty id
+        "rect-zeros": lambda: svg.Rect(2, 3, 7, 5, stroke="red", stroke_width=0, fill="#00000000", id=""),
+        "path-zeros": lambda: svg.Path("M0,0 L1,1 Q2,2 3,0", stroke="blue", stroke_width=0.0, fill=svg.Color(0, 0, 0, 0)),
+        "text-zeros": lambda: svg.Text("", x=0, y=0, stroke_width=0, fill="#0000"), "length-precise": lambda: svg.Length(100.0 / 3.0, "%"),
         "length-tiny-em": lambda: svg.Length("0.1234567890123456em"), "subpath": lambda: svg.Path("M0,0 L1,1 z M5,5 Q6,6 7,5 L9,9").subpath(1),
         "rect": lambda: svg.Rect(2, 3, 7, 5, 1.5, 1, "skewX(10)", "blue", "red"),
         "circle": lambda: svg.Circle(4, -3, 2.5, fill="#123456", id="c"), "ellipse": lambda: svg.Ellipse(4, -3, 2.5, 1.25, "rotate(30)"),
